@@ -16,9 +16,12 @@
       command substitution is EXECUTED, also inside double quotes (class value_cmd_substituted).
     - [C13_unquoted_full] is FALSE: [C13_refuted].  [C13_unquoted_partial] proves it outside
       [Known_C13], and [C13_unquoted_exact] shows that Known_C13 names EXACTLY the failing
-      values (an iff).  These two start from the token list (the tokenizer step for an
-      unquoted word with a reference is carried by the correspondence check, layer L1-full);
-      the witnesses [C13_witness_*] go through the whole of [plan] from the text.
+      values (an iff), from the token list on; [C13_unquoted_exact_text] is the same iff
+      from the TEXT of the line (tokenizer step: [C13_tokenize_unquoted]).
+      The witnesses [C13_witness_*] go through the whole of [plan] from the text.
+    - [C13_post_passes_from], [C13_dq_with_input]: a line that ALSO carries a genuine input
+      redirection ([<] / [<<<] written unquoted): the operator acts on its own target and the
+      quoted arguments -- whatever their values, the words [<] and [<<<] included -- stay words.
     - [C13_post_passes] / [C13_post_passes_exact]: whatever ANY expansion produced (variable,
       command substitution, glob match), the passes after the expansions plan one plain
       command iff no produced token is in Known_C13 -- the general statement behind the
@@ -27,7 +30,8 @@
       become a redirection. *)
 From Coq Require Import List NArith ZArith Bool.
 From Cicada Require Import Base.Chars Base.Tag Model.Tokenizer Model.Expand Model.ExpandRef Model.Redirect Model.FullPlan.
-From Cicada Require Import Proofs.TokenizerProofs Proofs.SubstProofs Proofs.ExpandBasics Proofs.C13Proofs.
+From Cicada Require Import Proofs.TokenizerProofs Proofs.TokenizerWordProofs Proofs.SubstProofs Proofs.ExpandBasics Proofs.C13Proofs.
+From Cicada Require Proofs.ExpandUntagged.
 From Cicada Require Proofs.RedirectProofs Proofs.PlanInert Proofs.ExpandInert.
 Import ListNotations.
 From Coq Require String.
@@ -196,6 +200,69 @@ Proof. exact PlanInert.plan_inert_iff. Qed.
 Theorem C13_known_is_not_inert : forall t last,
   Known_C13 t last = false <-> PlanInert.inert_tok t = true /\ (last = true -> PlanInert.amp_tok t = false).
 Proof. exact known_tok_split. Qed.
+
+(* ------------------------------------------------------------------ round 2: unquoted reference from the TEXT *)
+(** [C13_unquoted_exact] with the tokenizer step proved ([Proofs/TokenizerWordProofs.v]
+    parse_line_one_unquoted): the line is TEXT -- command word, quoted arguments, the unquoted
+    word pre $NAME post (ordinary characters, dollar, braces), quoted arguments. *)
+Theorem C13_unquoted_exact_text : forall W fuel cmd (args1 args2 : list (nat * qarg)) n noeq br (pre name post : str),
+  plain_word cmd = true -> forallb arith_body cmd = false -> split_env cmd = None -> ExpandInert.cmd_ok W cmd ->
+  forallb (fun '(_, a) => wf_qarg a) args1 = true -> forallb (fun '(_, a) => wf_qarg a) args2 = true ->
+  Forall (fun '(_, a) => calm_qarg a) args1 -> Forall (fun '(_, a) => calm_qarg a) args2 ->
+  forallb wchar (pre ++ render_piece (PRef br name) ++ post) = true ->
+  ~ In 36 pre -> ~ In 36 post -> ~ In 126 pre -> forallb (okg noeq) (pre ++ post) = true -> is_name name = true ->
+  (br = true \/ match post with c :: _ => is_alnum_us c = false | [] => True end) ->
+  let text := pre ++ key_value W name ++ post in
+  ~ In 96 text -> has_dollar_paren text = false -> ~ In 42 text -> ~ In 123 text ->
+  (plan W fuel (render_cmd cmd args1 ++ c_space :: spaces n ++ (pre ++ render_piece (PRef br name) ++ post) ++ render_args args2)
+   = Ok (one_cmd ((TNone, cmd) :: toks_of args1 ++ (TNone, text) :: toks_of args2))
+   <-> Known_C13 (TNone, text) (is_empty args2) = false).
+Proof. exact plan_unquoted_value_text_iff. Qed.
+
+(** the tokenizer lemma itself: one untagged token per unquoted word of ordinary characters and dollars *)
+Theorem C13_tokenize_unquoted : forall cmd (args1 args2 : list (nat * qarg)) n (w : str),
+  plain_word cmd = true -> forallb arith_body cmd = false ->
+  forallb (fun '(_, a) => wf_qarg a) args1 = true -> forallb (fun '(_, a) => wf_qarg a) args2 = true ->
+  w <> [] -> forallb wchar w = true ->
+  parse_line (render_cmd cmd args1 ++ c_space :: spaces n ++ w ++ render_args args2)
+  = (TNone, cmd) :: map (fun '(_, a) => tok_of_qarg a) args1 ++ (TNone, w) :: map (fun '(_, a) => tok_of_qarg a) args2.
+Proof. exact parse_line_one_unquoted. Qed.
+
+(* ------------------------------------------------------------------ round 2: a produced value next to a GENUINE input redirection *)
+(** passes after the expansions: [cmd a.. OP target b..], OP the untagged word [<] or [<<<],
+    everything else tagged or harmless: the operator and its target are taken out and nothing
+    else -- in particular a TAGGED token whose text is [<] stays a word. *)
+Theorem C13_post_passes_from : forall cmd (a b : list Redirect.token) op tgt,
+  RedirectProofs.cmd_ok cmd = true -> forallb PlanInert.inert_tok a = true -> forallb PlanInert.inert_tok b = true ->
+  PlanInert.inert_tok tgt = true -> PlanInert.last_amp (tgt :: b) = false -> (op = s_lt \/ op = s_lt3) ->
+  plan_tokens ((TNone, cmd) :: a ++ (TNone, op) :: tgt :: b) =
+  inl (mkcl [mkc ((TNone, cmd) :: a ++ b) [] (Some (op, snd tgt))] [] false).
+Proof. exact PlanInert.plan_inert_from. Qed.
+
+(** through the expansions too: a.. and b.. are quoted arguments in the sense of
+    [ExpandInert.tok_ok] (single-quoted; double-quoted without dollar; double-quoted words with
+    references, replaced by their value -- ANY value without backquote and dollar-paren), before
+    and / or after the genuine operator *)
+Theorem C13_dq_with_input : forall W fuel cmd a a' b b' op (f : str),
+  RedirectProofs.cmd_ok cmd = true -> ExpandInert.cmd_ok W cmd ->
+  Forall2 (ExpandInert.tok_ok W) a a' -> Forall2 (ExpandInert.tok_ok W) b b' ->
+  (op = s_lt \/ op = s_lt3) -> ExpandUntagged.lit_ok f = true -> PlanInert.inert_tok (TNone, f) = true ->
+  str_eqb f [c_amp] = false ->
+  plan_toks W fuel ((TNone, cmd) :: a ++ (TNone, op) :: (TNone, f) :: b)
+  = Ok (inl (mkcl [mkc ((TNone, cmd) :: a' ++ b') [] (Some (op, f))] [] false)).
+Proof. exact plan_toks_with_from. Qed.
+
+(** the seeded scenario, from the text:  OP is the less-than word;  grep -c (dq)$OP(dq) < page
+    runs grep -c with the ONE argument less-than and stdin from page *)
+Example C13_witness_value_and_genuine_lt :
+  plan (world_of [(s2l "OP", s2l "<")] []) 5 (s2l "grep -c " ++ [34] ++ s2l "$OP" ++ [34] ++ s2l " < page")
+  = Ok (inl (mkcl [mkc [tk "grep"; tk "-c"; (TDq, s2l "<")] [] (Some (s2l "<", s2l "page"))] [] false)).
+Proof. vm_compute. reflexivity. Qed.
+
+Print Assumptions C13_unquoted_exact_text.
+Print Assumptions C13_tokenize_unquoted.
+Print Assumptions C13_post_passes_from.
+Print Assumptions C13_dq_with_input.
 
 Check C13_dq.
 Check C13_unquoted_partial : forall W fuel cmd l1 l2 noeq br pre name post,
